@@ -15,6 +15,7 @@ THEOREMS = [
     "B2Z.Pipe.C03_config_invariant", "B2Z.Pipe.C03_max_chunks_prefix", "B2Z.Pipe.C01_pipeline_refines_spec",
     "B2Z.Checks.C03_file_order_invariant", "B2Z.Split.explodeOrder_meta", "B2Z.Split.C03_split_files_any_order",
 ]
+GEN_DEPENDS = ["Checks."]
 ASSUMPTIONS = [
     "PARTIAL: byte determinism of Blosc/zarr and the OS scheduler are outside the model: byte identity of repeated runs is observed, not proved",
     "records enter the pipeline in header-contig order then file order (partition sort key; explode tiling from C04)",
